@@ -631,7 +631,8 @@ def main():
             if sp is None:
                 continue
             body = no_strings(text[sp[0]:sp[1]])
-            calls = re.findall(r'([A-Za-z_][A-Za-z0-9_]*(?:::[A-Za-z_][A-Za-z0-9_]*)*)\s*(?:::<[^>]*>)?\(', body)
+            calls = re.findall(r'([A-Za-z_][A-Za-z0-9_]*(?:::[A-Za-z_][A-Za-z0-9_]*)*)\s*(?:::<[^>]*>)?\(|([A-Za-z_][A-Za-z0-9_]*!)\s*[(\[{]', body)
+            calls = [a_ or b_ for a_, b_ in calls]     # function / method calls, and macro invocations (`assert!`, `debug_assert!`, `format!`, `vec!` ...)
             calls = [c for c in calls if c not in ("if", "while", "for", "match", "Some", "Ok", "Err", "Self")]
             ctrl = re.findall(r'\b(if|else|for|while|loop|match|return|break|continue)\b|(\?)', body)
             ctrl = [a or b for a, b in ctrl]
